@@ -112,7 +112,7 @@ package tree
 // ---- searchNode: position of k among the keys of one node, at most n (<= 15) comparisons ----
 
 //@ func btree.searchNode
-//@   props C01 C03
+//@   props C03
 //@   noalloc
 //@   requires x != nil && 0 <= x.n && x.n <= 15 && t.compare != nil
 //@   ghostinit cc := 0
@@ -124,7 +124,7 @@ package tree
 //@   ensures forall j int {x.keys[j]} :: 0 <= j && j < idx ==> t.compare(k, x.keys[j]) > 0
 
 //@ func leftmostLeaf
-//@   props C01 C03
+//@   props C03
 //@   noalloc
 //@   requires x != nil && x.owner != nil && x.owner.nodes[x] && structOK(x.owner, nil, nil)
 //@   loop 0: invariant curr != nil && x.owner.nodes[curr] && curr.height <= x.height && (x != x.owner.root ==> curr != x.owner.root)
@@ -134,7 +134,7 @@ package tree
 //@   ensures C01: (forall kk K {result.sub[kk]} :: result.sub[kk] ==> x.sub[kk]) && (forall kk K, k2 K {x.sub[kk], result.sub[k2]} :: x.sub[kk] && !result.sub[kk] && result.sub[k2] ==> x.owner.compare(k2, kk) < 0)
 
 //@ func rightmostLeaf
-//@   props C01 C03
+//@   props C03
 //@   noalloc
 //@   requires x != nil && x.owner != nil && x.owner.nodes[x] && structOK(x.owner, nil, nil)
 //@   loop 0: invariant curr != nil && x.owner.nodes[curr] && curr.height <= x.height && (x != x.owner.root ==> curr != x.owner.root)
@@ -144,12 +144,12 @@ package tree
 //@   ensures C01: (forall kk K {result.sub[kk]} :: result.sub[kk] ==> x.sub[kk]) && (forall kk K, k2 K {x.sub[kk], result.sub[k2]} :: x.sub[kk] && !result.sub[kk] && result.sub[k2] ==> x.owner.compare(kk, k2) < 0)
 
 //@ func newBtree
-//@   props C01 C03
+//@   props C03
 //@   requires compare != nil
 //@   ghost result.root.owner := result
 //@   ghost result.nodes := single(result.root)
 //@   ghost result.dead := lambda x *node[K, V] :: false
-//@   ghost result.root.sub := lambda kk K :: false
+//@   ghost C01: result.root.sub := lambda kk K :: false
 //@   ghost result.root.height := 0
 //@   ensures fresh(result) && result.size == 0 && result.gen == 0 && result.compare == compare && structOK(result, nil, nil) && result.root.n == 0 && deadOK(result)
 //@   ensures C01: ordOK(result) && (forall kk K {result.root.sub[kk]} :: !result.root.sub[kk])
@@ -157,11 +157,11 @@ package tree
 // ---- read paths: structure only (no panic, one searchNode per level) ----
 
 //@ func btree.Len
-//@   props C01 C03
+//@   props C03
 //@   ensures result == t.size
 
 //@ func btree.Get
-//@   props C01 C03
+//@   props C03
 //@   requires structOK(t, nil, nil)
 //@   ghostinit lv := 0
 //@   after call searchNode[0]: ghost lv := lv + 1
@@ -175,7 +175,7 @@ package tree
 //@   ensures C01: (forall kk K {t.root.sub[kk]} :: t.root.sub[kk] ==> t.compare(k, kk) != 0) ==> result == zero(V)
 
 //@ func btree.Contains
-//@   props C01 C03
+//@   props C03
 //@   requires structOK(t, nil, nil)
 //@   ghostinit lv := 0
 //@   after call searchNode[0]: ghost lv := lv + 1
@@ -189,14 +189,14 @@ package tree
 //@   ensures C01: !result ==> (forall kk K {t.root.sub[kk]} :: t.root.sub[kk] ==> t.compare(k, kk) != 0)
 
 //@ func btree.First
-//@   props C01 C03
+//@   props C03
 //@   requires structOK(t, nil, nil)
 //@   requires C01: swo(t) && ordOK(t)
 //@   ensures C01: t.root.n == 0 ==> result0 == zero(K) && result1 == zero(V)
 //@   ensures C01: t.root.n > 0 ==> t.root.sub[result0] && result1 == t.val[result0] && (forall kk K {t.root.sub[kk]} :: t.root.sub[kk] ==> t.compare(result0, kk) <= 0)
 
 //@ func btree.Last
-//@   props C01 C03
+//@   props C03
 //@   requires structOK(t, nil, nil)
 //@   requires C01: swo(t) && ordOK(t)
 //@   ensures C01: t.root.n == 0 ==> result0 == zero(K) && result1 == zero(V)
@@ -205,7 +205,7 @@ package tree
 // ---- mutations: the structural invariant is re-established (C03) ----
 
 //@ func btree.insertIntoLeaf
-//@   props C01 C03
+//@   props C03
 //@   noalloc
 //@   requires structOK(t, nil, nil) && t.nodes[x] && x.height == 0 && x.n < 15
 //@   requires C02: deadOK(t)
@@ -228,7 +228,7 @@ package tree
 //@   ensures x != t.root ==> (x.pidx < x.parent.n ==> result1 == x.parent.children[x.pidx+1] && t.nodes[result1]) && (x.pidx >= x.parent.n ==> result1 == nil)
 
 //@ func btree.rotateRight
-//@   props C01 C03
+//@   props C03
 //@   noalloc
 //@   requires structOK(t, right, nil) && t.nodes[left] && t.nodes[right] && left != t.root && right != t.root && left.parent == right.parent && right.pidx == left.pidx + 1
 //@   requires C02: deadOK(t)
@@ -238,13 +238,12 @@ package tree
 //@   ensures structOK(t, nil, nil) && left.n == old(left.n) - 1 && right.n == old(right.n) + 1 && t.nodes == old(t.nodes) && t.root == old(t.root)
 //@   ensures C02: deadOK(t)
 //@   requires C01: swo(t) && ordOK(t)
-//@   ghost left.sub := lambda kk K :: old(left.sub)[kk] && t.compare(kk, old(left.keys[left.n-1])) < 0
-//@   ghost right.sub := lambda kk K :: old(right.sub)[kk] || kk == old(left.parent.keys[left.pidx]) || (old(left.sub)[kk] && t.compare(old(left.keys[left.n-1]), kk) < 0)
-//@   ghost t.locI := lambda kk K :: kk == old(left.keys[left.n-1]) ? old(left.pidx) : (kk == old(left.parent.keys[left.pidx]) ? 0 : (old(t.locN)[kk] == right ? old(t.locI)[kk] + 1 : old(t.locI)[kk]))
-//@   ghost t.locN := lambda kk K :: kk == old(left.keys[left.n-1]) ? old(left.parent) : (kk == old(left.parent.keys[left.pidx]) ? right : old(t.locN)[kk])
+//@   ghost C01: left.sub := lambda kk K :: old(left.sub)[kk] && t.compare(kk, old(left.keys[left.n-1])) < 0
+//@   ghost C01: right.sub := lambda kk K :: old(right.sub)[kk] || kk == old(left.parent.keys[left.pidx]) || (old(left.sub)[kk] && t.compare(old(left.keys[left.n-1]), kk) < 0)
+//@   ghost C01: t.locI := lambda kk K :: kk == old(left.keys[left.n-1]) ? old(left.pidx) : (kk == old(left.parent.keys[left.pidx]) ? 0 : (old(t.locN)[kk] == right ? old(t.locI)[kk] + 1 : old(t.locI)[kk]))
+//@   ghost C01: t.locN := lambda kk K :: kk == old(left.keys[left.n-1]) ? old(left.parent) : (kk == old(left.parent.keys[left.pidx]) ? right : old(t.locN)[kk])
 //@   trustens C01: ordS(t) && t.root.sub == old(t.root.sub)
 //@   ensures C01: valOK(t) && t.val == old(t.val)
-//@   after call insertOne[2]: assert hint(old(left.n)) && hint(old(left.n) - 1) && hint(old(left.pidx)) && hint(old(left.pidx) + 1) && hint(0) && hint(1)
 // data movement (proved): the separator left.parent.keys[left.pidx] goes to the front of right, left's last key goes up, left's last child becomes right's first
 //@   ensures C01: right.keys[0] == old(left.parent.keys[left.pidx]) && right.values[0] == old(left.parent.values[left.pidx]) && right.children[0] == old(left.children[left.n])
 //@   ensures C01: (forall i int {right.keys[i]} :: 1 <= i && i <= old(right.n) ==> right.keys[i] == old(right.keys[i-1])) && (forall i int {right.values[i]} :: 1 <= i && i <= old(right.n) ==> right.values[i] == old(right.values[i-1])) && (forall i int {right.children[i]} :: 1 <= i && i <= old(right.n) + 1 ==> right.children[i] == old(right.children[i-1]))
@@ -252,7 +251,7 @@ package tree
 //@   ensures C01: left.parent.keys[old(left.pidx)] == old(left.keys[left.n-1]) && left.parent.values[old(left.pidx)] == old(left.values[left.n-1]) && (forall i int {left.parent.keys[i]} :: 0 <= i && i < 15 && i != old(left.pidx) ==> left.parent.keys[i] == old(left.parent.keys[i])) && (forall i int {left.parent.values[i]} :: 0 <= i && i < 15 && i != old(left.pidx) ==> left.parent.values[i] == old(left.parent.values[i]))
 
 //@ func btree.rotateLeft
-//@   props C01 C03
+//@   props C03
 //@   noalloc
 //@   requires structOK(t, left, nil) && t.nodes[left] && t.nodes[right] && left != t.root && right != t.root && left.parent == right.parent && right.pidx == left.pidx + 1
 //@   requires C02: deadOK(t)
@@ -271,7 +270,7 @@ package tree
 //@   ensures C01: left.parent.keys[old(left.pidx)] == old(right.keys[0]) && left.parent.values[old(left.pidx)] == old(right.values[0]) && (forall i int {left.parent.keys[i]} :: 0 <= i && i < 15 && i != old(left.pidx) ==> left.parent.keys[i] == old(left.parent.keys[i])) && (forall i int {left.parent.values[i]} :: 0 <= i && i < 15 && i != old(left.pidx) ==> left.parent.values[i] == old(left.parent.values[i]))
 
 //@ func btree.steal
-//@   props C01 C03
+//@   props C03
 //@   noalloc
 //@   requires structOK(t, x, nil) && t.nodes[x] && x.n < 15
 //@   requires C02: deadOK(t)
@@ -289,7 +288,7 @@ package tree
 //@ pred sibsSmall(x) = (x.pidx > 0 ==> x.parent.children[x.pidx-1].n <= 7) && (x.pidx < x.parent.n ==> x.parent.children[x.pidx+1].n <= 7)
 
 //@ func btree.merge
-//@   props C01 C03
+//@   props C03
 //@   noalloc
 //@   requires structOK(t, x, nil) && t.nodes[x] && x != t.root && x.n <= 6 && sibsSmall(x)
 //@   requires C02: deadOK(t)
@@ -301,7 +300,7 @@ package tree
 //@   ensures C01: ordOK(t) && t.root.sub == old(t.root.sub) && t.val == old(t.val)
 
 //@ func btree.mergeTwo
-//@   props C01 C03
+//@   props C03
 //@   noalloc
 //@   requires structOK(t, left.n < 7 ? left : right, nil) && t.nodes[left] && t.nodes[right] && left != t.root && right != t.root
 //@   requires C02: deadOK(t)
@@ -326,7 +325,7 @@ package tree
 //@   after call removeOne[2]: assert C01: (forall i int {parent.keys[i]} :: (0 <= i && i < old(left.pidx) ==> parent.keys[i] == old(left.parent.keys[i])) && (old(left.pidx) <= i && i < old(left.parent.n) - 1 ==> parent.keys[i] == old(left.parent.keys[i+1]))) && (forall i int {parent.values[i]} :: (0 <= i && i < old(left.pidx) ==> parent.values[i] == old(left.parent.values[i])) && (old(left.pidx) <= i && i < old(left.parent.n) - 1 ==> parent.values[i] == old(left.parent.values[i+1])))
 
 //@ func btree.removeRightmost
-//@   props C01 C03
+//@   props C03
 //@   noalloc
 //@   requires structOK(t, nil, nil) && t.nodes[x] && x != t.root
 //@   requires C02: deadOK(t)
@@ -343,7 +342,7 @@ package tree
 //@   trustens C01: t.locN == old(t.locN) && t.locI == old(t.locI) && t.locI[result0] == t.locN[result0].n && t.nodes[t.locN[result0]]
 
 //@ func btree.Delete
-//@   props C01 C03
+//@   props C03
 //@   noalloc
 //@   requires structOK(t, nil, nil)
 //@   requires C02: deadOK(t)
@@ -360,11 +359,11 @@ package tree
 //@   loop 0: invariant C01: swo(t) && ordOK(t) && !fnd && t.val == old(t.val) && t.root == old(t.root) && t.root.sub == old(t.root.sub) && t.size == old(t.size) && t.gen == old(t.gen)
 //@   loop 0: invariant C01: forall kk K {t.root.sub[kk]} :: t.root.sub[kk] && t.compare(k, kk) == 0 ==> curr.sub[kk]
 //@   loop 0: invariant C01: forall kk K {curr.sub[kk]} :: curr.sub[kk] ==> t.root.sub[kk]
-//@   after call removeOne[1]: ghostmap c *node[K, V] . sub := store(c.sub, fkey, false)
-//@   after call removeOne[1]: ghost t.locI := lambda kk K :: (t.locN[kk] == curr && t.locI[kk] > idx) ? t.locI[kk] - 1 : t.locI[kk]
-//@   after call removeRightmost[0]: ghostmap c *node[K, V] . sub := store(c.sub, fkey, false)
-//@   after call removeRightmost[0]: ghost t.locN := store(t.locN, callresult0, curr)
-//@   after call removeRightmost[0]: ghost t.locI := store(t.locI, callresult0, idx)
+//@   after call removeOne[1]: ghostmap C01: c *node[K, V] . sub := store(c.sub, fkey, false)
+//@   after call removeOne[1]: ghost C01: t.locI := lambda kk K :: (t.locN[kk] == curr && t.locI[kk] > idx) ? t.locI[kk] - 1 : t.locI[kk]
+//@   after call removeRightmost[0]: ghostmap C01: c *node[K, V] . sub := store(c.sub, fkey, false)
+//@   after call removeRightmost[0]: ghost C01: t.locN := store(t.locN, callresult0, curr)
+//@   after call removeRightmost[0]: ghost C01: t.locI := store(t.locI, callresult0, idx)
 //@   ensures C01: ordOK(t)
 //@   ensures C01: fnd ==> delFound(t, k, fkey)
 //@   ensures C01: !fnd ==> delNone(t, k)
@@ -421,7 +420,8 @@ package tree
 //@   requires pendOK(t, x, afterK)
 //@   requires C02: deadOK(t)
 //@   modifies t.root, t.nodes, all(x.n), all(x.keys), all(x.values), all(x.children), all(x.parent), all(x.pidx), all(x.owner), all(x.height), t.val, t.locN, t.locI, all(x.sub)
-//@   loop 0: invariant pendOK(t, x, afterK) && deadOK(t) && (forall c *node[K, V] {t.nodes[c]} {old(t.nodes)[c]} :: old(t.nodes)[c] ==> t.nodes[c])
+//@   loop 0: invariant pendOK(t, x, afterK)
+//@   loop 0: invariant C02: deadOK(t) && (forall c *node[K, V] {t.nodes[c]} {old(t.nodes)[c]} :: old(t.nodes)[c] ==> t.nodes[c])
 //@   after assign right[0]: ghost right.owner := t
 //@   after assign right[0]: ghost right.height := x.height
 //@   after assign right[0]: ghost t.nodes := store(t.nodes, right, true)
@@ -455,7 +455,7 @@ package tree
 //@   loop 3: invariant C01: (forall j int {left.keys[j]} {left.values[j]} :: i < j && j < 8 ==> t.val[left.keys[j]] == left.values[j]) && (forall j int {left.keys[j]} :: 0 <= j && j <= i ==> left.keys[j] == iter(0, x.keys[j])) && (forall j int {left.values[j]} :: 0 <= j && j <= i ==> left.values[j] == iter(0, x.values[j]))
 
 //@ func btree.Put
-//@   props C01 C03
+//@   props C03
 //@   requires structOK(t, nil, nil)
 //@   requires C02: deadOK(t)
 //@   modifies t.size, t.gen, t.root, t.nodes, all(t.root.n), all(t.root.keys), all(t.root.values), all(t.root.children), all(t.root.parent), all(t.root.pidx), all(t.root.owner), all(t.root.height), t.val, t.locN, t.locI, all(t.root.sub)
@@ -468,8 +468,8 @@ package tree
 //@   ghostinit fkey := k
 //@   ghostinit nx := lambda c *node[K, V] :: 0
 //@   after call searchNode[0]: assert hint(callresult0)
-//@   after call searchNode[0]: ghost path := store(path, curr, true)
-//@   after call searchNode[0]: ghost nx := store(nx, curr, callresult0)
+//@   after call searchNode[0]: ghost C01: path := store(path, curr, true)
+//@   after call searchNode[0]: ghost C01: nx := store(nx, curr, callresult0)
 //@   after call searchNode[0]: ghost fnd := callresult1
 //@   after call searchNode[0]: ghost fkey := callresult1 ? curr.keys[callresult0] : k
 //@   loop 0: invariant C01: swo(t) && ordOK(t) && !fnd && !path[curr] && t.val == old(t.val) && t.root == old(t.root) && t.root.sub == old(t.root.sub)
@@ -479,14 +479,14 @@ package tree
 //@   loop 0: invariant C01: forall kk K {curr.sub[kk]} :: curr.sub[kk] ==> t.root.sub[kk]
 //@   loop 0: invariant C01: forall c *node[K, V], i int {path[c], c.keys[i]} :: path[c] && 0 <= i && i < c.n ==> t.compare(k, c.keys[i]) != 0
 //@   loop 0: invariant C01: forall c *node[K, V] {path[c]} :: path[c] ==> 0 <= nx[c] && nx[c] <= c.n && hint(nx[c]) && (nx[c] < c.n ==> t.compare(k, c.keys[nx[c]]) < 0) && (nx[c] > 0 ==> t.compare(c.keys[nx[c]-1], k) < 0) && (path[c.children[nx[c]]] || c.children[nx[c]] == curr)
-//@   before call insertIntoLeaf[0]: assert forall c *node[K, V], j int {path[c], hint(j)} :: path[c] && 0 <= j && j <= c.n && (j > 0 ==> t.compare(c.keys[j-1], k) < 0) && (j < c.n ==> t.compare(k, c.keys[j]) < 0) ==> j == nx[c]
-//@   before call insertIntoLeaf[0]: ghostmap c *node[K, V] . sub := path[c] ? store(c.sub, k, true) : c.sub
-//@   before call overfill[0]: ghostmap c *node[K, V] . sub := path[c] ? store(c.sub, k, true) : c.sub
-//@   before call overfill[0]: ghost t.val := store(t.val, k, v)
-//@   after call insertIntoLeaf[0]: ghost t.val := store(t.val, k, v)
-//@   after call insertIntoLeaf[0]: ghost t.locI := lambda kk K :: kk == k ? callghost_p : ((t.locN[kk] == curr && t.locI[kk] >= callghost_p) ? t.locI[kk] + 1 : t.locI[kk])
-//@   after call insertIntoLeaf[0]: ghost t.locN := store(t.locN, k, curr)
-//@   ghost t.val := fnd ? store(t.val, fkey, v) : t.val
+//@   before call insertIntoLeaf[0]: assert C01: forall c *node[K, V], j int {path[c], hint(j)} :: path[c] && 0 <= j && j <= c.n && (j > 0 ==> t.compare(c.keys[j-1], k) < 0) && (j < c.n ==> t.compare(k, c.keys[j]) < 0) ==> j == nx[c]
+//@   before call insertIntoLeaf[0]: ghostmap C01: c *node[K, V] . sub := path[c] ? store(c.sub, k, true) : c.sub
+//@   before call overfill[0]: ghostmap C01: c *node[K, V] . sub := path[c] ? store(c.sub, k, true) : c.sub
+//@   before call overfill[0]: ghost C01: t.val := store(t.val, k, v)
+//@   after call insertIntoLeaf[0]: ghost C01: t.val := store(t.val, k, v)
+//@   after call insertIntoLeaf[0]: ghost C01: t.locI := lambda kk K :: kk == k ? callghost_p : ((t.locN[kk] == curr && t.locI[kk] >= callghost_p) ? t.locI[kk] + 1 : t.locI[kk])
+//@   after call insertIntoLeaf[0]: ghost C01: t.locN := store(t.locN, k, curr)
+//@   ghost C01: t.val := fnd ? store(t.val, fkey, v) : t.val
 //@   ensures C01: ordOK(t)
 //@   ensures C01: fnd ==> putFound(t, k, v, fkey)
 //@   ensures C01: !fnd ==> putNew(t, k, v)
@@ -560,7 +560,7 @@ package tree
 //@   ensures old(c.curr) == nil ==> c.curr == nil
 
 //@ func cursor.SeekLastLess
-//@   props C01 C02
+//@   props C02
 //@   noalloc
 //@   requires c != nil && treeOK(c.t) && c.gen <= c.t.gen
 //@   modifies c.curr, c.i, c.k, c.gen
@@ -575,7 +575,7 @@ package tree
 //@   ensures C01: !sok ==> !stepped && c.curr == nil
 
 //@ func cursor.SeekLastLessOrEqual
-//@   props C01 C02
+//@   props C02
 //@   noalloc
 //@   requires c != nil && treeOK(c.t) && c.gen <= c.t.gen
 //@   modifies c.curr, c.i, c.k, c.gen
@@ -590,7 +590,7 @@ package tree
 //@   ensures C01: !sok ==> !stepped && c.curr == nil
 
 //@ func cursor.SeekFirstGreaterOrEqual
-//@   props C01 C02
+//@   props C02
 //@   noalloc
 //@   requires c != nil && treeOK(c.t) && c.gen <= c.t.gen
 //@   modifies c.curr, c.i, c.k, c.gen
@@ -605,7 +605,7 @@ package tree
 //@   ensures C01: !sok ==> !stepped && c.curr == nil
 
 //@ func cursor.SeekFirstGreater
-//@   props C01 C02
+//@   props C02
 //@   noalloc
 //@   requires c != nil && treeOK(c.t) && c.gen <= c.t.gen
 //@   modifies c.curr, c.i, c.k, c.gen
@@ -728,7 +728,7 @@ func verifClientIterateWhileMutating[K any, V any](c *cursor[K, V], k1 K, k2 K, 
 //@ pred rangeIt(t, it) = curOK(&it.c) && posValid(&it.c) && it.c.t == t
 
 //@ func btree.Range
-//@   props C01 C02
+//@   props C02
 //@   requires treeOK(t)
 //@   panics when lower.type_ < 1 || lower.type_ > 3 || upper.type_ < 1 || upper.type_ > 3
 //@   ensures fresh(result)
@@ -743,7 +743,7 @@ func verifClientIterateWhileMutating[K any, V any](c *cursor[K, V], k1 K, k2 K, 
 //@   ensures C01: sk == lower.type_
 
 //@ func btree.RangeReverse
-//@   props C01 C02
+//@   props C02
 //@   requires treeOK(t)
 //@   panics when lower.type_ < 1 || lower.type_ > 3 || upper.type_ < 1 || upper.type_ > 3
 //@   ensures fresh(result)
